@@ -60,7 +60,14 @@ func (sp *Proof) Verify(rootHash []byte, leaf []byte) error {
 	if !bytes.Equal(sp.LeafHash, leafHash) {
 		return fmt.Errorf("invalid leaf hash: wanted %X got %X", leafHash, sp.LeafHash)
 	}
+	// ComputeRootHash returns nil when index, total and the number of aunts do
+	// not describe a path of a tree. That is a failed verification, not a root:
+	// compared with bytes.Equal it would match an empty rootHash.
 	computedHash := sp.ComputeRootHash()
+	if computedHash == nil {
+		return fmt.Errorf("invalid proof: index %d, total %d and %d aunts do not lead to a root hash",
+			sp.Index, sp.Total, len(sp.Aunts))
+	}
 	if !bytes.Equal(computedHash, rootHash) {
 		return fmt.Errorf("invalid root hash: wanted %X got %X", rootHash, computedHash)
 	}
